@@ -1,7 +1,7 @@
 """C11 -- word-level sanity predicates are exact for all 80-bit values."""
 import random
 
-from .. import core, canon
+from .. import core, canon, ctxstream
 
 TRUSTED = [
     "Coq 8.16.1 kernel (coqc); vm_compute for the 256-identifier enumeration; no native_compute",
@@ -153,4 +153,5 @@ def run(tier, seed):
                        "single-lane / all-but-one / random active-lane masks in both modes. distinct_nontrivial = "
                        "distinct (word kind, canonical verdict) pairs observed")
     chk.add_stream("words", len(cases), distinct, samples, distribution=dist)
+    ctxstream.run(chk, rng, tier_eff == "thorough")
     return core.finish(chk, TRUSTED)
